@@ -993,6 +993,42 @@ static void *thr_main(void *p)
     return NULL;
 }
 
+/* ---- fork() inside a signal handler on the calling thread (op V) */
+static volatile int g_sigfork_child, g_sigfork_done, g_sigfork_parked;
+static volatile pid_t g_sigfork_pid;
+static pthread_t g_sigfork_main;
+static const char *g_sigfork_status = "ok";
+static const char *timeout_status(pid_t pid);
+static void sigfork_handler(int sig)
+{
+    (void) sig;
+    if (g_sigfork_done) return;
+    g_sigfork_done = 1;
+    pid_t p = fork();
+    if (p == 0) { g_sigfork_child = 1; g_no_drain = 1; for (int q = 0; q < nsinks; q++) if (sinks[q].fd >= 0) fcntl(sinks[q].fd, F_SETFD, FD_CLOEXEC); prctl(PR_SET_PDEATHSIG, SIGKILL); return; }
+    g_sigfork_pid = p;
+}
+static void *sigfork_helper(void *arg)
+{
+    (void) arg;
+    volatile int never = 0;
+    g_sigfork_parked = S.wait_parked(&never, 3000);
+    g_sigfork_status = "ok";
+    if (!g_sigfork_parked) { g_sigfork_status = "notparked"; S.release(); return NULL; }
+    pthread_kill(g_sigfork_main, SIGUSR2);
+    for (int ms = 0; ms < 3000 && !g_sigfork_pid; ms++) usleep(1000);
+    pid_t pid = g_sigfork_pid;
+    if (pid <= 0) { g_sigfork_status = "forkfailed"; S.release(); return NULL; }
+    int st = 0, waited = 0;
+    for (int ms = 0; ms < 10000; ms++) { pid_t w = waitpid(pid, &st, WNOHANG); if (w == pid) { waited = 1; break; } usleep(1000); }
+    if (!waited) { g_sigfork_status = timeout_status(pid); kill(pid, SIGKILL); waitpid(pid, &st, 0); }
+    else if (WIFEXITED(st) && WEXITSTATUS(st) == 77) g_sigfork_status = "deadlock";
+    else if (WIFSIGNALED(st)) g_sigfork_status = "killed-by-signal";
+    else if (!(WIFEXITED(st) && WEXITSTATUS(st) == 0)) g_sigfork_status = "abnormal";
+    S.release();
+    return NULL;
+}
+
 /* ------------------------------------------------------------------ scenario */
 static int parse_ops(unsigned char *blob, size_t len, op_t **out)
 {
@@ -1233,6 +1269,33 @@ static void run_ops(op_t *ops, int nops)
             for (int t = 0; t < nt; t++) pthread_join(tids[t], NULL);
             S.mode(0);
             i = j - 1;
+            break; }
+        case 'V': { /* fork() from a signal handler that interrupts the CALLING thread in the middle of its own wrapped call (at its k-th
+                       event): args k; then X (the call).  The handler (no SA_RESTART) forks; parent and child both return from it and both
+                       finish the interrupted call.  fork() is async-signal-safe, so this is a legal thing for a program to do. */
+            sched_load();
+            if (!S.ok || i + 1 >= nops) { ev_error("libsched not loaded / bad V"); break; }
+            int k = arg_int(&op->a[0]);
+            call_t cv; call_prepare(&cv, &ops[i + 1]);
+            struct sigaction sa; memset(&sa, 0, sizeof sa); sa.sa_handler = sigfork_handler; sigaction(SIGUSR2, &sa, NULL);
+            g_sigfork_child = 0; g_sigfork_pid = 0; g_sigfork_done = 0;
+            S.on_deadlock(on_deadlock_exit);
+            S.mode(1); S.park_setup(k); S.park_thread_is_me();
+            g_sigfork_main = pthread_self();
+            pthread_t helper; pthread_create(&helper, NULL, sigfork_helper, NULL);
+            call_run(&cv);
+            if (g_sigfork_child) {
+                /* the child of the handler's fork(): it has just completed the call it was interrupted in */
+                emit_simple('c', "child-call-completed");
+                fflush(NULL);
+                _exit(0);
+            }
+            pthread_join(helper, NULL);
+            { ev_t e = {0}; ev_begin(&e, 'j'); ev_int(&e, k); ev_int(&e, g_sigfork_parked); ev_int(&e, S.park_events()); ev_str(&e, g_sigfork_status);
+              ev_int(&e, 0); ev_int(&e, 1); ev_int(&e, 0); ev_end(&e); ev_free(&e); }
+            S.mode(0);
+            signal(SIGUSR2, SIG_DFL);
+            i += 1;
             break; }
         case 'J': { /* fork while a second thread is parked at its k-th lock/unlock event: args k depth; then X (thread's call, tno) X (child's call) */
             sched_load();
